@@ -425,24 +425,15 @@ func (n *Node) Text(prec int) string {
 	case KAny:
 		return "."
 	case KSeq:
-		if len(n.Kids) == 0 {
-			return `""`
-		}
 		parts := make([]string, len(n.Kids))
 		for i, k := range n.Kids {
 			parts[i] = k.Text(4)
-		}
-		if len(n.Kids) == 1 {
-			return "(" + parts[0] + ")"
 		}
 		return wrap(3, strings.Join(parts, " "))
 	case KAlt:
 		parts := make([]string, len(n.Kids))
 		for i, k := range n.Kids {
 			parts[i] = k.Text(2)
-		}
-		if len(n.Kids) == 1 {
-			return "(" + parts[0] + ")"
 		}
 		return wrap(1, strings.Join(parts, " / "))
 	case KStar:
